@@ -349,6 +349,33 @@ theorem single_state_iff_partial (l : List Nat) (d : SdState) (h : ∀ s ∈ l, 
   · intro x
     exact ⟨by rcases hd with rfl | rfl | rfl | rfl <;> simp, x⟩
 
+/-- `group_in_single_state` for the element-wise version: `Some(d)` iff the list is non-empty,
+    all entries are one value `v`, and `d` is `v` decoded. -/
+theorem single_state_elem_iff (l : List Nat) (d : SdState) :
+    groupInSingleStateElem l = some d ↔ l ≠ [] ∧ ∃ v, (∀ s ∈ l, s = v) ∧ d = SdState.ofNat v := by
+  cases l with
+  | nil => simp [groupInSingleStateElem]
+  | cons x rest =>
+    simp only [groupInSingleStateElem]
+    by_cases hall : rest.all (· == x) = true
+    · rw [if_pos hall]
+      have hall' : ∀ s ∈ rest, s = x := by simpa using hall
+      constructor
+      · intro h
+        exact ⟨by simp, x, by intro s hs; rcases List.mem_cons.1 hs with rfl | hs; rfl; exact hall' s hs,
+          (Option.some.inj h).symm⟩
+      · rintro ⟨_, v, hv, rfl⟩
+        rw [hv x (by simp)]
+    · rw [if_neg hall]
+      constructor
+      · intro h; cases h
+      · rintro ⟨_, v, hv, _⟩
+        exfalso
+        apply hall
+        simp only [List.all_eq_true, beq_iff_eq]
+        intro s hs
+        rw [hv s (by simp [hs]), hv x (by simp)]
+
 /-! ### Generated obligations (T1) -/
 
 /-- The discriminants the model's `SdState.toNat`/`ofNat` use are the ones in subdevice_state.rs. -/
